@@ -201,6 +201,26 @@ def _once(case, acc, nodes):
     if framed.getvalue() != "# exported tree\n" + expected_written:
         raise Violation("write-text", "write() into a handle that already holds a header line produced %r" % (framed.getvalue(),))
     framed.seek(mark)
+    # real text files in other encodings (the locale's code page on Windows, latin-1 archives, UTF-16): write() hands the
+    # same text to the handle whatever its encoding is - when the text cannot be encoded, that is the caller's UnicodeEncodeError
+    for encoding in ("latin-1", "cp1252", "utf-16", "ascii"):
+        try:
+            raw = expected_written.encode(encoding)
+        except UnicodeEncodeError:
+            raw = None
+        wrapper = io.TextIOWrapper(io.BytesIO(), encoding=encoding, newline="")
+        try:
+            exporter.write(start, wrapper)
+            wrapper.flush()
+            got_raw = wrapper.buffer.getvalue()
+        except UnicodeEncodeError:
+            got_raw = None
+        if raw is None:
+            if got_raw is not None:
+                raise Violation("write-text", "write() into a %s file succeeded although the exported text %r cannot be encoded in it; the file holds %r" % (encoding, expected_written[:200], got_raw[:200]))
+        elif got_raw != raw:
+            raise Violation("write-text", "write() into a %s file produced %r, the exported text encodes to %r" % (encoding, got_raw, raw))
+        acc.tag("writes_into_non_utf8_text_files", raw is not None and not expected_written.isascii())
     if c10.tree_state(nodes) != before:
         raise Violation("export-modifies-tree", "JSON export modified the tree")
     # import
